@@ -19,6 +19,7 @@ HERE = os.path.dirname(os.path.abspath(__file__))
 VERIF = os.path.dirname(HERE)
 sys.path.insert(0, HERE)
 
+import fingerprint  # noqa: E402
 import lean  # noqa: E402
 import translate  # noqa: E402
 
@@ -143,9 +144,35 @@ class Check:
                         c["_origin"] = "corpus:" + fn
                         cases.append(c)
         rng = random.Random(f"{self.prop}-{self.seed}")
-        for c in mod.cases(rng, self.tier):
+        gen_tier = self.tier
+        # The code this property's model mirrors has been edited since the models were written (source fingerprints,
+        # harness/fingerprint.py).  That is not a violation and not a broken obligation; it only means the
+        # correspondence deserves a larger budget: an edited anchored function -> the thorough generator,
+        # any other edit in the anchor files -> two more quick seeds.
+        self.escalation = {"changed": {"anchored": [], "other": []}, "level": 0}
+        if self.tier == "quick" and os.environ.get("VERIF_NO_ESCALATE") != "1":
+            try:
+                ch = fingerprint.changed(REPO, self.prop)
+            except Exception as e:  # noqa: BLE001  (an unparsable source file is reported by the other steps)
+                ch = {"anchored": [f"fingerprint failed: {type(e).__name__}"], "other": []}
+            self.escalation["changed"] = {"anchored": ch["anchored"][:20], "other": ch["other"][:20]}
+            if ch["anchored"]:
+                gen_tier = "thorough"
+                self.escalation["level"] = 2
+            elif ch["other"]:
+                self.escalation["level"] = 1
+        for c in mod.cases(rng, gen_tier):
             c.setdefault("_origin", "gen")
             cases.append(c)
+        if self.escalation["level"] == 1:
+            seen = {c.get("req") for c in cases if c.get("req") is not None}
+            for k in (1, 2):
+                for c in mod.cases(random.Random(f"{self.prop}-{self.seed}-esc{k}"), self.tier):
+                    if c.get("req") is not None and c["req"] in seen:
+                        continue
+                    seen.add(c.get("req"))
+                    c.setdefault("_origin", f"gen-esc{k}")
+                    cases.append(c)
         return cases
 
     def run_impl(self, cases):
@@ -338,6 +365,7 @@ class Check:
                 "distribution": dict(sorted(dist.items())),
                 "exhaustive": bool(getattr(mod, "EXHAUSTIVE", {}).get(self.tier, False)),
                 "translator": info.get("translator", {}).get("summary", {}),
+                "source_fingerprint": getattr(self, "escalation", None),
                 "leanchecker": info.get("leanchecker"),
                 "status": status,
             },
